@@ -224,6 +224,14 @@ def r3_truthy(ctx, schema, ci, fi, ex: Extractor, own_only: bool = False) -> Non
                 'presence must be tested with HasField',
                 construct=a.node, func=fi.qualname)
         return
+      if fld is not None and fld.type in ('string', 'bytes') and not fld.repeated and not fld.optional \
+          and t not in WRAPPER_TYPES and fi.name.startswith('from'):
+        ctx.bad('R3', f'{ci.name}.{fi.name}: truthiness of string field {".".join(a.path[-2:])}', a.node,
+                f'`{unparse(a.node, limit=80)}` lets the truthiness of the plain string field {t}.{f} decide what is restored: a proto3 '
+                'string has no presence, so a legitimately empty value (e.g. an infeasible trial completed without a reason) is '
+                'read back as "not set" and the object changes (an INFEASIBLE trial turns into an unfinished one)',
+                construct=a.node, func=fi.qualname)
+        return
       if t in WRAPPER_TYPES and f == 'value':
         ctx.bad('R3', f'{ci.name}.{fi.name}: presence of {".".join(a.path[-2:])}', a.node,
                 f'`{unparse(a.node, limit=80)}` decides whether the optional value is set by the '
